@@ -13,7 +13,7 @@ def run(chk):
                                     cases=core.run_cases('pipeline', chk.tier, chk.seed, {}), jobs=8, timeout=3000)
     chk.validate('pipeline', 'Trace_Pipeline', 'Trace_Pipeline.cfg', recs, driver='pipeline', jobs=14)
     goods = [r for r in recs if r['kind'] == 'scene' and r['exc'] == '']
-    good = goods[0]
+    good = goods[0] if goods else None
 
     def corrupt(r):
         r['gmap'] = r['gmap'][1:] + r['gmap'][:1]
